@@ -301,7 +301,7 @@ func apply(op Op, pool []modeling.Mesh) (ms []modeling.Mesh, status string, coq 
 		coq = fmt.Sprintf("OSetIndices %s %s %s", I, cellsCoq(intCells(op.Idx)), nat(op.Spare))
 		ms, status = protect(func() []modeling.Mesh { return one(m.SetIndices(mkInts(op.Idx, op.Spare))) })
 	case "setmaterial":
-		coq = fmt.Sprintf("OSetMaterial %s %d%%Z", I, op.Mat)
+		coq = fmt.Sprintf("OSetMaterial %s (%d)%%Z", I, op.Mat)
 		ms, status = protect(func() []modeling.Mesh { return one(m.SetMaterial(*material(op.Mat))) })
 	case "setmaterials":
 		cs := make([]cell, len(op.Mats))
@@ -429,7 +429,11 @@ func apply(op Op, pool []modeling.Mesh) (ms []modeling.Mesh, status string, coq 
 	case "crop":
 		pos := attrRows3(m, op.Name)
 		keep := []int{}
-		for i, p := range pos {
+		for _, i := range indicesOf(m) { // (since fix b57892d: one point per index, not per vertex)
+			if i < 0 || i >= len(pos) {
+				continue
+			}
+			p := pos[i]
 			in := true
 			for c := 0; c < 3; c++ {
 				if p[c] < at(op.Vec, c)-at(op.Vec, 3+c)/2 || p[c] > at(op.Vec, c)+at(op.Vec, 3+c)/2 {
@@ -486,10 +490,14 @@ func apply(op Op, pool []modeling.Mesh) (ms []modeling.Mesh, status string, coq 
 			groups[mats[0].Material] = []int{}
 			for t := 0; t+2 < len(idx) && ok; t += 3 {
 				if mats[cur].PrimitiveCount+other <= t/3 {
-					other += mats[cur].PrimitiveCount
-					cur++
-					if cur >= len(mats) {
-						ok = false
+					for ok && mats[cur].PrimitiveCount+other <= t/3 { // (since fix f7cbdfa: steps over empty ranges)
+						other += mats[cur].PrimitiveCount
+						cur++
+						if cur >= len(mats) {
+							ok = false // the implementation declares the error: ranges cover too few primitives
+						}
+					}
+					if !ok {
 						break
 					}
 					if _, seen := groups[mats[cur].Material]; !seen {
@@ -502,11 +510,14 @@ func apply(op Op, pool []modeling.Mesh) (ms []modeling.Mesh, status string, coq 
 		}
 		items := make([]string, len(order))
 		for i, p := range order {
-			items[i] = fmt.Sprintf("(%s,Some %d%%Z)", cellsCoq(intCells(groups[p])), matID(p))
+			items[i] = fmt.Sprintf("(%s,Some (%d)%%Z)", cellsCoq(intCells(groups[p])), matID(p))
 		}
 		coq = fmt.Sprintf("OMulti %s None [Triangle] [%s]", I, strings.Join(items, ";"))
 		if len(mats) < 2 {
 			coq = fmt.Sprintf("OIdent %s", I) // nothing to split on: the argument itself is returned
+		} else if !ok && int(m.Topology()) == 0 {
+			// declared error after the topology check (not generated): ask the model for a Declared answer
+			coq = fmt.Sprintf("OMulti %s None [Point] []", I)
 		}
 		ms, status = protect(func() []modeling.Mesh { return meshops.SplitOnUniqueMaterials(m) })
 	default:
@@ -568,7 +579,9 @@ func applyMap(op Op, m modeling.Mesh) (ms []modeling.Mesh, status string, coq st
 				}
 				return m.ModifyFloat2Attribute(op.Name, g)
 			}
-			g := func(i int, v vector3.Float64) vector3.Float64 { return vector3.New(f(v.X(), 0), f(v.Y(), 1), f(v.Z(), 2)) }
+			g := func(i int, v vector3.Float64) vector3.Float64 {
+				return vector3.New(f(v.X(), 0), f(v.Y(), 1), f(v.Z(), 2))
+			}
 			if op.N > 0 {
 				return m.ModifyFloat3AttributeParallelWithPoolSize(op.Name, op.N, g)
 			}
@@ -592,7 +605,9 @@ func applyMap(op Op, m modeling.Mesh) (ms []modeling.Mesh, status string, coq st
 		}
 	case "mo.scale2":
 		k, fn = 2, "FMul "+zvec(op.Vec, 2)
-		run = func() modeling.Mesh { return meshops.ScaleAttribute2D(m, op.Name, vector2.Zero[float64](), v2of(op.Vec)) }
+		run = func() modeling.Mesh {
+			return meshops.ScaleAttribute2D(m, op.Name, vector2.Zero[float64](), v2of(op.Vec))
+		}
 	case "mo.rotate":
 		run = func() modeling.Mesh {
 			return meshops.RotateAttribute3D(m, op.Name, quaternion.FromTheta(math.Pi/2, vector3.Right[float64]()))
@@ -610,9 +625,13 @@ func applyMap(op Op, m modeling.Mesh) (ms []modeling.Mesh, status string, coq st
 		k = 2
 		run = func() modeling.Mesh { return meshops.NormalizeAttribute2D(m, op.Name) }
 	case "mo.colorspace":
-		run = func() modeling.Mesh { return meshops.VertexColorSpace(m, op.Name, meshops.VertexColorSpaceSRGBToLinear) }
+		run = func() modeling.Mesh {
+			return meshops.VertexColorSpace(m, op.Name, meshops.VertexColorSpaceSRGBToLinear)
+		}
 	case "mo.alongnormal":
-		run = func() modeling.Mesh { return meshops.ScaleAttributeAlongNormal(m, op.Name, modeling.NormalAttribute, at(op.Vec, 0)) }
+		run = func() modeling.Mesh {
+			return meshops.ScaleAttributeAlongNormal(m, op.Name, modeling.NormalAttribute, at(op.Vec, 0))
+		}
 	case "mo.flatnormals":
 		src, dst, req, tris = pos, modeling.NormalAttribute, []int{0}, true
 		run = func() modeling.Mesh {
@@ -694,10 +713,23 @@ func applyFilter(op Op, m modeling.Mesh) (ms []modeling.Mesh, status string, coq
 		}
 	} else {
 		// keep a vertex when the first component of its attribute value is >= thr
+		// (since fix 0cb1906: triangles and quads survive or go as a whole, other topologies index by index)
 		first := observeRaw(m, k, op.Name)
-		for _, i := range idx {
-			if i >= 0 && i < len(first) && first[i] >= thr {
-				keep = append(keep, i)
+		size := 1
+		if t := int(m.Topology()); t == 0 {
+			size = 3
+		} else if t == 2 {
+			size = 4
+		}
+		for st := 0; st+size <= len(idx); st += size {
+			all := true
+			for _, i := range idx[st : st+size] {
+				if !(i >= 0 && i < len(first) && first[i] >= thr) {
+					all = false
+				}
+			}
+			if all {
+				keep = append(keep, idx[st:st+size]...)
 			}
 		}
 		run = func() modeling.Mesh {
